@@ -35,10 +35,10 @@ PLANS = {
     "C10": plan(shards(30, 480, mode="script", n=10), shards(20, 300, mode="faults", n=3),
                 shards(12, 120, mode="shutdown-race", n=1), shards(20, 240, mode="net", n=2), shards(20, 240, mode="stack", n=1)),
     "C11": plan(shards(20, 360, mode="two", n=9), shards(20, 360, mode="three", n=3), shards(20, 300, mode="net", n=2), shards(20, 300, mode="live", n=2)),
-    "C12": plan(shards(20, 300, n=14), shards(20, 300, mode="stack", n=2), tool("miri.sh", ["c12"], 3000), tool("tsan.sh", ["C12"], 3000)),
+    "C12": plan(shards(20, 300, n=13), shards(20, 300, mode="stack", n=2), shards(15, 240, mode="api", n=1), tool("miri.sh", ["c12"], 3000), tool("tsan.sh", ["C12"], 3000)),
     "C13": plan(shards(15, 240)),
     "C14": plan(shards(20, 300, n=14), shards(15, 240, mode="api", n=2), tool("tsan.sh", ["C14"], 3000)),
-    "C15": plan(shards(12, 180, n=11), shards(12, 180, mode="live", n=3), shards(20, 240, mode="stack", n=2)),
+    "C15": plan(shards(12, 180, n=10), shards(12, 180, mode="live", n=3), shards(20, 240, mode="stack", n=2), shards(15, 240, mode="api", n=1)),
     "C16": plan(shards(15, 240, n=12), shards(15, 240, mode="engine", n=3), shards(15, 240, mode="api", n=1)),
     "C17": plan(shards(12, 180)),
     "C18": plan(shards(15, 240)),
@@ -76,7 +76,7 @@ RULES = {
            "upgrade mode: the stored history is copied into a file of the redb-2.x on-disk format (with or without derived tables) and opened by a child that strace kills on entry to its k-th file-system call (all calls when <= 32 quick / 400 thorough, else a sample plus every rename / link / unlink); each kill point is one evaluation. node mode: a child does what a persistent docs node does when it starts (open the store, start the store actor, load or create the default author) and then follows a script of 1..5 steps (create an author and make it the default with or without a flush in between, flush, restart); strace kills it at the n-th call of every file-system call name (all when <= 48 quick / 600 thorough, else every call naming a path plus a sample); after each kill the node is started twice on what is left: it must start, its default author must be in the store and be the acknowledged one or the one being set. actor mode: the histories of the images mode issued as requests to a store actor over a database file; images inside the store-access callback (actor thread; with and without the age-based commit forced at every access), after every acknowledged flush_store (everything before it must be there) and after shutdown returned with the store still alive (the final state must be there).",
     "C07": "case = 4..30 random steps over three documents (import read/write, open, close, reopen, local insert/delete, valid remote "
            "insert, export, foreign merge), through the store (2/3) or the actor (1/3). non-trivial = a read capability was upgraded; distinct = hash of the trace."
-           " api mode: one complete docs node driven through its client layer (DocsApi / Doc): 8..40 calls over two documents and three authors (import read / write, open, close of a client handle, calls through a closed handle, set_bytes / set_hash / del under the clock hook, start_sync / share(read|write) / leave, subscribe, drop_doc, author delete / import, list, get_exact), every reply, status() after every step and the whole content at one step in four compared with a sequential specification; each run judges the clauses of its own property (C14: handle counting, sync switch, gating, replies; C07: capabilities, tickets, listing; C16: drop_doc). non-trivial there = a call was refused and a document was dropped or upgraded.",
+           " api mode: one complete docs node driven through its client layer (DocsApi / Doc): 8..40 calls over two documents and three authors (import read / write, open, close of a client handle, calls through a closed handle, subscribe, set / get download policy, set_bytes / set_hash / del under the clock hook, start_sync / share(read|write) / leave, subscribe, drop_doc, author delete / import, list, get_exact), every reply, status() after every step and the whole content at one step in four compared with a sequential specification; each run judges the clauses of its own property (C14: handle counting, sync switch, gating, replies; C07: capabilities, tickets, listing; C16: drop_doc; C12: the client's event subscriptions carry exactly the accepted local writes, in order; C15: policies set through a handle are read back). non-trivial there = a call was refused and a document was dropped or upgraded.",
     "C08": "case = two replica-state entry sets (closed form of random offers, " + _GEN + ") + a neighbouring document; primitives on "
            "60/200 random ranges with bounds from held ids, successors, other authors, other documents; sessions on memory / file redb "
            "and the ordered map with both initiators under random parameters. non-trivial = both sets non-empty; distinct = hash of both sets.",
@@ -99,21 +99,23 @@ RULES = {
     "C12": "case = 5..25 steps on one store actor: subscribe / unsubscribe / drop receiver (<=4 subscribers), policy change, local insert / "
            "delete, single remote entry (direct or as message; valid, superseded, forged), multi-entry messages with forged entries, "
            "sessions with a local write between two messages, another document borrowing a subscriber channel and being closed. non-trivial = subscriber churn happened and events were produced; distinct = hash of the trace."
-           " stack mode: 2..3 complete docs nodes on loopback (real gossip, QUIC sessions, downloads), 6..18 client-API steps per history (writes and deletions under the clock hook, joins by ticket, leave / rejoin, pauses), then closing rounds of kicked sessions until every dump equals the merge; non-trivial = something was superseded or a node left and rejoined. Judged there: the event streams of the nodes.",
+           " stack mode: 2..3 complete docs nodes on loopback (real gossip, QUIC sessions, downloads), 6..18 client-API steps per history (writes and deletions under the clock hook, joins by ticket, leave / rejoin, pauses), then closing rounds of kicked sessions until every dump equals the merge; non-trivial = something was superseded or a node left and rejoined. Judged there: the event streams of the nodes."
+           " api mode: one complete docs node driven through its client layer (DocsApi / Doc): 8..40 calls over two documents and three authors (import read / write, open, close of a client handle, calls through a closed handle, subscribe, set / get download policy, set_bytes / set_hash / del under the clock hook, start_sync / share(read|write) / leave, subscribe, drop_doc, author delete / import, list, get_exact), every reply, status() after every step and the whole content at one step in four compared with a sequential specification; each run judges the clauses of its own property (C14: handle counting, sync switch, gating, replies; C07: capabilities, tickets, listing; C16: drop_doc; C12: the client's event subscriptions carry exactly the accepted local writes, in order; C15: policies set through a handle are read back). non-trivial there = a call was refused and a document was dropped or upgraded.",
     "C13": "case kinds: (2/3) history of 3..14 offers per document on two neighbouring documents in random arrival order with removal "
            "and re-creation, heads and 3 probe reports checked after every step; (1/3) head set of 0..40 authors over 1..6 timestamps "
            "of different varint widths, no limit and 12 limits. non-trivial = decreasing arrival happened / timestamps shared; distinct = hash.",
     "C14": "case kinds: (2/3) sequential history of 5..40 requests over two documents compared reply by reply and by get_state; (1/3) "
            "2..4 concurrent clients x 2..5 requests on a 4-thread runtime, checked for linearizability per document. non-trivial = "
            "sequential: some request had to be refused; concurrent: operations of different clients overlapped; distinct = hash of the history."
-           " api mode: one complete docs node driven through its client layer (DocsApi / Doc): 8..40 calls over two documents and three authors (import read / write, open, close of a client handle, calls through a closed handle, set_bytes / set_hash / del under the clock hook, start_sync / share(read|write) / leave, subscribe, drop_doc, author delete / import, list, get_exact), every reply, status() after every step and the whole content at one step in four compared with a sequential specification; each run judges the clauses of its own property (C14: handle counting, sync switch, gating, replies; C07: capabilities, tickets, listing; C16: drop_doc). non-trivial there = a call was refused and a document was dropped or upgraded.",
+           " api mode: one complete docs node driven through its client layer (DocsApi / Doc): 8..40 calls over two documents and three authors (import read / write, open, close of a client handle, calls through a closed handle, subscribe, set / get download policy, set_bytes / set_hash / del under the clock hook, start_sync / share(read|write) / leave, subscribe, drop_doc, author delete / import, list, get_exact), every reply, status() after every step and the whole content at one step in four compared with a sequential specification; each run judges the clauses of its own property (C14: handle counting, sync switch, gating, replies; C07: capabilities, tickets, listing; C16: drop_doc; C12: the client's event subscriptions carry exactly the accepted local writes, in order; C15: policies set through a handle are read back). non-trivial there = a call was refused and a document was dropped or upgraded.",
     "C15": "case kinds: matcher (policy x all keys up to length 3 over the alphabet + filter-derived keys), persistence (set/get/reopen over "
            "two documents and a missing one), filter text round-trips and arbitrary strings, event flags from a real actor; live mode: 4..16 steps of policy change / remote insert with its own content hash (sender has or lacks the content) / neighbour announcement against a real live actor (H7), non-trivial there = a history with selected and excluded entries. "
            "non-trivial = policy that selects some keys and not others / >=2 steps / filter round-tripped; distinct = hash."
-           " stack mode: 2..3 complete docs nodes on loopback (real gossip, QUIC sessions, downloads), 6..18 client-API steps per history (writes and deletions under the clock hook, joins by ticket, leave / rejoin, pauses), then closing rounds of kicked sessions until every dump equals the merge; non-trivial = something was superseded or a node left and rejoined. Judged there: content of entries a node's policy does not select.",
+           " stack mode: 2..3 complete docs nodes on loopback (real gossip, QUIC sessions, downloads), 6..18 client-API steps per history (writes and deletions under the clock hook, joins by ticket, leave / rejoin, pauses), then closing rounds of kicked sessions until every dump equals the merge; non-trivial = something was superseded or a node left and rejoined. Judged there: content of entries a node's policy does not select."
+           " api mode: one complete docs node driven through its client layer (DocsApi / Doc): 8..40 calls over two documents and three authors (import read / write, open, close of a client handle, calls through a closed handle, subscribe, set / get download policy, set_bytes / set_hash / del under the clock hook, start_sync / share(read|write) / leave, subscribe, drop_doc, author delete / import, list, get_exact), every reply, status() after every step and the whole content at one step in four compared with a sequential specification; each run judges the clauses of its own property (C14: handle counting, sync switch, gating, replies; C07: capabilities, tickets, listing; C16: drop_doc; C12: the client's event subscriptions carry exactly the accepted local writes, in order; C15: policies set through a handle are read back). non-trivial there = a call was refused and a document was dropped or upgraded.",
     "C16": "case = store with 3..5 documents from a pool of byte-neighbour ids, filled with entries, policies and peers; 2..8 steps of "
            "removal (1/3 attempted while open; on file stores half of them cut by the age-based commit at a random store access, with a crash image checked), re-creation, late operations on the removed document, writes; engine mode: a complete docs engine on a database file with a protect handler, 3..12 API steps (set_bytes, set_hash, del, close+drop, create) with the harness calling the protect callback as the blob store's collector would (exact set on the healthy engine; after the engine was shut down or dropped: Abort or the exact set). non-trivial = at least one removal succeeded; distinct = hash of the trace."
-           " api mode: one complete docs node driven through its client layer (DocsApi / Doc): 8..40 calls over two documents and three authors (import read / write, open, close of a client handle, calls through a closed handle, set_bytes / set_hash / del under the clock hook, start_sync / share(read|write) / leave, subscribe, drop_doc, author delete / import, list, get_exact), every reply, status() after every step and the whole content at one step in four compared with a sequential specification; each run judges the clauses of its own property (C14: handle counting, sync switch, gating, replies; C07: capabilities, tickets, listing; C16: drop_doc). non-trivial there = a call was refused and a document was dropped or upgraded.",
+           " api mode: one complete docs node driven through its client layer (DocsApi / Doc): 8..40 calls over two documents and three authors (import read / write, open, close of a client handle, calls through a closed handle, subscribe, set / get download policy, set_bytes / set_hash / del under the clock hook, start_sync / share(read|write) / leave, subscribe, drop_doc, author delete / import, list, get_exact), every reply, status() after every step and the whole content at one step in four compared with a sequential specification; each run judges the clauses of its own property (C14: handle counting, sync switch, gating, replies; C07: capabilities, tickets, listing; C16: drop_doc; C12: the client's event subscriptions carry exactly the accepted local writes, in order; C15: policies set through a handle are read back). non-trivial there = a call was refused and a document was dropped or upgraded.",
     "C17": "case = 1..40 registrations over 1..8 peers and two documents (read-only or writable) with reopen, unknown documents and interleaved other store operations (capability import, policy, listing, open/close, removal and re-import). non-trivial = an eviction "
            "and a refresh both happened; distinct = hash of the trace. On file stores: one reopen in three through a redb-2.x format file, one registration in three cut by the age-based commit with a crash image.",
     "C18": "case = file store with 1..3 documents (1..14 offers each), flushed; head table / by-key index / both / none deleted with plain "
